@@ -15,7 +15,12 @@
    acknowledged.  It appears as an explicit premise and the theorems carry the suffix _partial;
    nothing else is assumed (no Section variable survives into this file).  The premise is needed
    for a real reason: a zero octet at an unacknowledged sequence number lies inside the receiver's
-   window and would be handed to the application. *)
+   window and would be handed to the application.
+   STATUS: tcp-c05 has REFUTED the premise on the current tree (corpus/C05/tcp-c05-stale-max-seq-sent.case,
+   candidate defect D23: rtte.max_seq_sent survives SYN-RECEIVED -RST-> LISTEN -SYN->, so a re-accepting
+   listener sends its keep-alive at the previous connection's sequence number).  Until /repo resets
+   the estimator in the (Listen, Syn) arm and the premise is proved, the four _partial theorems are
+   implications from a false premise; they are kept because the composition itself is complete. *)
 From SV Require Import Lib.Base Gen.Consts.
 From SV Require Import Model.Seq32 Model.Assembler Model.TcpBuf Model.TcpTypes Model.Tcp Model.TcpNet.
 From SV Require Import Proofs.TcpNetBase Proofs.TcpNetContract Proofs.TcpNetTx Proofs.TcpNetCompose Proofs.TcpNetInv Proofs.TcpNetProofs.
